@@ -84,6 +84,28 @@ func TestVerifFPMTrace(t *testing.T) {
 			n++
 		}
 	}
+	// longer sources against short targets over the same two words: chains of hits that are still open when the target
+	// ends, in every order
+	maxSrc, maxTgt := vuEnvInt("VERIF_MAXSRC", 10), vuEnvInt("VERIF_MAXTGT", 5)
+	for sl := maxLen + 1; sl <= maxSrc; sl++ {
+		for sb := 0; sb < 1<<uint(sl); sb++ {
+			sw := make([]string, sl)
+			for i := range sw {
+				sw[i] = vocab[(sb>>uint(i))&1]
+			}
+			src := strings.Join(sw, " ")
+			for tl := 3; tl <= maxTgt; tl++ {
+				for tb := 0; tb < 1<<uint(tl); tb++ {
+					tw := make([]string, tl)
+					for i := range tw {
+						tw[i] = vocab[(tb>>uint(i))&1]
+					}
+					fpmEvent(out, src, strings.Join(tw, " "))
+					n++
+				}
+			}
+		}
+	}
 	rng := rand.New(rand.NewSource(vuSeed()))
 	words := []string{"the", "license", "is", "granted", "to", "you", "the", "the", "a", "of", "—", "(c)", "ünï", "x.y", "bad\xff"}
 	for k := 0; k < vuEnvInt("VERIF_LONG", 300); k++ {
